@@ -32,8 +32,9 @@ def isResize (e : Entry) : Bool := match e.call with
 def isUpdate (e : Entry) : Bool := match e.call with | .updateNode _ => true | _ => false
 def isGet (e : Entry) : Bool := match e.call with | .getNode _ => true | _ => false
 
-def aspectsOf (view : View) (jm jo : Journal) : List String :=
+def aspectsOf (dry : Bool) (view : View) (jm jo : Journal) : List String :=
   let a (name : String) (p : Entry → Bool) : List String := if jm.filter p == jo.filter p then [] else [name]
+  (if dry then a "drywrites" Spec.isWrite else []) ++
   a "removals" isRemoval ++ a "taintadds" (Spec.isTaintAdd view) ++ a "untaints" (Spec.isTaintRemove view) ++
   a "resize" isResize ++ a "updates" isUpdate ++ a "gets" isGet ++ a "writes" Spec.isWrite ++
   (if canonDesc jm == canonDesc jo then [] else ["journal"])
@@ -86,7 +87,7 @@ def handleScan (ds : DState) (sc : ScanCase) : DState × Json :=
       if out.recs.length != sc.obs.recs.length then ["reccount"] else
       (out.recs.zip sc.obs.recs).flatMap (fun (m, ob) =>
         let v := views m.name
-        (aspectsOf v m.j ob.j).map (fun a => m.name ++ ":" ++ a) ++
+        (aspectsOf (ds.ctl.globalDry || m.cfg.dryMode) v m.j ob.j).map (fun a => m.name ++ ":" ++ a) ++
         (if m.delta == ob.delta then [] else [m.name ++ ":delta"]))
     let dStates : List String :=
       sc.obs.states.flatMap (fun os =>
